@@ -100,7 +100,7 @@ def _e2(test, text, rule, quick=2500, thorough=50000, **kw):
 
 PROPS.update({
     "C05": _e2("TestVerifC05", "Generated scenarios x generated schedules over the real connection/poller code; exactly-once, ordering and monotonicity judged on the event log, the close(2) audit and the poller-slot census at exact quiescence.",
-               "scenario = callbacks subset x handler behaviour (returns/reads k/closes/panics) x peer script (writes, close/shutdown) x 0-3 closers x detach x observer x closers/detacher acting as soon as OnPrepare has returned (while netpoll registers the connection) or only after the accept x user Close inside OnDisconnect or inside a close callback; schedule drawn step by step; non-trivial = two of {user close, peer hang-up, handler exit, handler panic, detach} within 8 scheduler steps of each other; distinct = scenario + event sequence"),
+               "scenario = callbacks subset x handler behaviour (returns/reads k/closes/panics) x peer script (writes, close/shutdown) x 0-3 closers x detach x a Shutdown-style sweeper (up to 3 passes of 'if isIdle() then Close()', as server.Close does to every tracked connection) x observer x closers/detacher acting as soon as OnPrepare has returned (while netpoll registers the connection) or only after the accept x user Close inside OnDisconnect or inside a close callback; schedule drawn step by step; non-trivial = two of {user close, peer hang-up, handler exit, handler panic, detach} within 8 scheduler steps of each other; distinct = scenario + event sequence"),
     "C06": _e2("TestVerifC06", "Generated input chunkings, handler behaviours and schedules; serial execution and 'no stranded input' are decided exactly at quiescence (no enabled actor), without any wall clock.",
                "scenario = 0-5 peer chunks x handler (all / k per call / lazy / close) x optional OnConnect (which may itself install the handler with SetOnRequest on a server that has none) x optional late SetOnRequest x peer close; non-trivial = a handler ran and a poller delivery or the peer close fell within 6 steps of a handler return, or SetOnRequest raced buffered data; distinct = scenario + event sequence"),
     "C09": _e2("TestVerifC09", "Generated callback subsets, OnConnect durations, data/close timing and schedules; order invariants judged on the event log.",
